@@ -122,7 +122,10 @@ pub fn check_alignment_law(params: &[(f64, f64)], nstate: usize, times: &[(f64, 
         if *end >= 0.0 {
             let size = group_end - group_start;
             let got: usize = d[group_start..group_end].iter().sum();
-            let (lo, hi) = round_candidates(*end, 1e-6);
+            // the frames of a group are round(end - frames so far); the subtraction of an integer is
+            // exact, so only ends within rounding noise of a half frame (ends stay below 1e7 frames,
+            // ulp 2e-9) are ambiguous
+            let (lo, hi) = round_candidates(*end, 1e-8);
             let expect = |r: f64| -> usize {
                 if r - cum as f64 > size as f64 {
                     r as usize - cum
@@ -205,10 +208,15 @@ fn gen_frame_times(t: &mut Tape, n: usize, typical: f64, limit: f64) -> Vec<(f64
         };
         let start = cur;
         cur = (cur + step).clamp(0.0, limit);
-        let mut end = match t.weighted(&[3, 1, 1]) {
+        let mut end = match t.weighted(&[6, 2, 2, 1]) {
             0 => cur,
             1 => cur.floor() + 0.5,
-            _ => cur.round(),
+            2 => cur.round(),
+            // just beside a half frame (1e-8..1e-3 of a frame): rounds like any other number
+            _ => {
+                let d = t.log_uniform(1e-8, 1e-3);
+                cur.floor() + 0.5 + if t.chance(0.5) { d } else { -d }
+            }
         };
         if end > limit {
             end = limit;
@@ -227,7 +235,7 @@ impl Prop for AlignLaw {
         "align-law".into()
     }
     fn rule(&self) -> String {
-        "DurationEstimator::create_with_alignment on generated duration Gaussians (1..7 states/label, 1..30 labels) and generated frame times: each label's end known or unknown (p in {0,.3,.7,1}), steps positive/zero/negative/large, fractional and exact .5 frames; oracle: cumulative-frames law + one-frame floor + trailing fallback + reference fit when unambiguous. Non-trivial: both known and unknown ends present, or a trailing group".into()
+        "DurationEstimator::create_with_alignment on generated duration Gaussians (1..7 states/label, 1..30 labels) and generated frame times: each label's end known or unknown (p in {0,.3,.7,1}), steps positive/zero/negative/large, fractional, exact .5 frames and ends 1e-8..1e-3 of a frame beside .5; oracle: cumulative-frames law + one-frame floor + trailing fallback + reference fit when unambiguous. Non-trivial: both known and unknown ends present, or a trailing group".into()
     }
     fn tape_len(&self, _: Tier) -> usize {
         700
@@ -344,10 +352,15 @@ pub fn gen_text_times(t: &mut Tape, n: usize, frame_100ns: f64, typical_frames: 
             } * frame_100ns;
             let start = cur;
             cur = (cur + step).clamp(0.0, limit_100ns);
-            let end = match t.weighted(&[2, 2, 1]) {
+            let end = match t.weighted(&[4, 4, 2, 1]) {
                 0 => cur.round(),
                 1 => ((cur / frame_100ns).floor() + 0.5) * frame_100ns,
-                _ => (cur / frame_100ns).round() * frame_100ns,
+                2 => (cur / frame_100ns).round() * frame_100ns,
+                // a fractional stamp just beside a half frame (1e-7..1e-3 of a frame)
+                _ => {
+                    let d = t.log_uniform(1e-7, 1e-3);
+                    ((cur / frame_100ns).floor() + 0.5 + if t.chance(0.5) { d } else { -d }) * frame_100ns
+                }
             }
             .clamp(0.0, limit_100ns);
             if !t.chance(p_timed) {
@@ -530,7 +543,7 @@ impl Prop for EngineAlign {
         };
         let frames = trajectories(&g).lf0.len();
         // the engine parses the times itself: allow the one-frame ambiguity of .5 ties only
-        let tie = times.iter().any(|t| t.1 >= 0.0 && { let (a, b) = round_candidates(t.1, 1e-6); a != b });
+        let tie = times.iter().any(|t| t.1 >= 0.0 && { let (a, b) = round_candidates(t.1, 1e-8f64.max(t.1.abs() * 4e-15)); a != b });
         ensure!(
             frames == expect_frames || tie,
             "engine-align-frames",
